@@ -34,7 +34,7 @@ def xdrCmd : List String → String
   | ["decfh", h] => match fromHex h with
     | some bs => match decFh Gen.fhMax Gen.fhLen bs with
       | some (v, r) => s!"some {v} rest={toHex r}"
-      | none => "none"
+      | none => s!"none rest={toHex (decFhRest Gen.fhMax Gen.fhLen bs)}"
     | none => "bad-op"
   | ["encfh", n] => match n.toNat? with
     | some v => toHex (encFh v)
